@@ -1,5 +1,6 @@
 import GaeaVerif.Sexp
 import GaeaVerif.Model.Route
+import GaeaVerif.Model.RouteLit
 import GaeaVerif.Model.ShardStart
 import GaeaVerif.Spec.ShardCalendar
 import GaeaVerif.Drv.ShardIO
@@ -10,6 +11,12 @@ import GaeaVerif.Drv.ShardIO
   Output:  (ok i j …) | err
   Oracle:  every universe row value on which the condition may be TRUE must
            have its table among the routed ones.
+  Literals: (lit SQLHEX RANK|n PLACE|e EQSTART)   the harness states the denoted value (legacy form), or
+            (lit SQLHEX KIND PLACE|e EQSTART)     KIND = (i N) | (u N) | (s HEX) | (x HEX) | (b HEX) | (d DIGITS SCALE)
+                                                  | (f BITS) | (n): the literal as the parser delivers it; what it
+            denotes for the column type COLTYPE and whether the planner routes by it at all on a rule of type
+            TYPE (7th element of meta) is computed by Model/RouteLit.lean.
+  Rows:     (RANK place) or ((s HEX) place): a string / DATETIME value.
 
   Request: m (join RULE COLTYPE (tables (T ALIAS)…) (steps (KW USING ON|-)…) WHERE|- (meta …) (univ (rank place)…))
            steps in FROM order; KW join|inner|cross|straight|comma|left|leftouter|right|rightouter,
@@ -30,7 +37,44 @@ import GaeaVerif.Drv.ShardIO
 namespace GaeaVerif.Drv.C01
 open GaeaVerif GaeaVerif.Route
 
-def parseLit : Sexp → Option Lit
+open GaeaVerif.RouteLit in
+def parseKind : Sexp → Option SqlLit
+  | .list [.atom "i", v] => v.asInt?.map .int
+  | .list [.atom "u", v] => v.asNat?.map .uint
+  | .list [.atom "s", b] => (Drv.ShardIO.asGoStr? b).map .str
+  | .list [.atom "x", b] => (Drv.ShardIO.asGoStr? b).map .hex
+  | .list [.atom "b", b] => (Drv.ShardIO.asGoStr? b).map .bit
+  | .list [.atom "d", d, sc] => do pure (.dec (← d.asNat?) (← sc.asNat?))
+  | .list [.atom "f", b] => b.asNat?.map .float
+  | .list [.atom "n"] => some .null
+  | _ => none
+
+/-- the rule family and column type the literals of a line are read under -/
+structure LitCx where
+  fam : RouteLit.Fam := .other
+  ct : RouteLit.ColType := .int
+  /-- read the string literals of a mycat_string / mycat_murmur table that are not the decimal
+      spelling of an integer as on a string column: equal to no integer (used to recognise the
+      known finding `mycat-numeric-string-routed-as-text`) -/
+  textAsString : Bool := false
+
+/-- `s` is the decimal spelling of the integer MySQL reads from it -/
+def canonicalInt (s : ShardGo.GoStr) : Bool :=
+  match InsertStored.mysqlInt s with
+  | some n => ShardGo.fmtInt n == s
+  | none => false
+
+def parseLitCx (cx : LitCx) : Sexp → Option Lit
+  | .list [.atom "lit", _, .list k, pl, eq] => do
+    let q ← parseKind (.list k)
+    let place := match pl with | .atom "e" => none | e => e.asInt?
+    let l := RouteLit.mkLit cx.fam cx.ct q place (← eq.asBool?)
+    match q with
+    | .str s =>
+      if cx.textAsString && cx.fam == .text && cx.ct == .int && !canonicalInt s then
+        pure { l with rank := some (-(2 : Int) ^ 200), sem := .exact }
+      else pure l
+    | _ => pure l
   | .list [.atom "lit", _, rk, pl, eq] =>
     let rank := match rk with | .atom "n" => none | e => e.asInt?
     let place := match pl with | .atom "e" => none | e => e.asInt?
@@ -38,6 +82,8 @@ def parseLit : Sexp → Option Lit
     | some b => some { rank := rank, place := place, eqStart := b }
     | none => none
   | _ => none
+
+def parseLit : Sexp → Option Lit := parseLitCx {}
 
 def parseOp : String → Option Cmp
   | "eq" => some .eq | "ne" => some .ne | "lt" => some .lt
@@ -49,31 +95,59 @@ def parseCol : Sexp → Option Bool
   | .atom "oc" => some false
   | _ => none
 
-partial def parseCond : Sexp → Option Cond
-  | .list [.atom "and", a, b] => do pure (.and (← parseCond a) (← parseCond b))
-  | .list [.atom "or", a, b] => do pure (.or (← parseCond a) (← parseCond b))
-  | .list [.atom "par", a] => do pure (.paren (← parseCond a))
+partial def parseCondCx (cx : LitCx) : Sexp → Option Cond
+  | .list [.atom "and", a, b] => do pure (.and (← parseCondCx cx a) (← parseCondCx cx b))
+  | .list [.atom "or", a, b] => do pure (.or (← parseCondCx cx a) (← parseCondCx cx b))
+  | .list [.atom "par", a] => do pure (.paren (← parseCondCx cx a))
   | .list [.atom "other", k, _] => do pure (.other (← k.asNat?))
   | .list [.atom "cmp", c, .atom side, .atom op, l] => do
-      pure (.cmp (← parseCol c) (side == "lc") (← parseOp op) (← parseLit l))
+      pure (.cmp (← parseCol c) (side == "lc") (← parseOp op) (← parseLitCx cx l))
   | .list [.atom "in", c, neg, .list ls] => do
-      pure (.inList (← parseCol c) (← neg.asBool?) (← ls.mapM parseLit))
+      pure (.inList (← parseCol c) (← neg.asBool?) (← ls.mapM (parseLitCx cx)))
   | .list [.atom "btw", c, neg, lo, hi] => do
-      pure (.between (← parseCol c) (← neg.asBool?) (← parseLit lo) (← parseLit hi))
+      pure (.between (← parseCol c) (← neg.asBool?) (← parseLitCx cx lo) (← parseLitCx cx hi))
   | _ => none
+
+def parseCond : Sexp → Option Cond := parseCondCx {}
 
 def parseRule : Sexp → Option Rule
   | .list [.atom "meta", rg, gl, f, l, .list is] => do
       pure { idxs := (← is.mapM Sexp.asInt?), first := (← f.asInt?), last := (← l.asInt?),
              isRange := (← rg.asBool?), isGlobal := (← gl.asBool?) }
+  | .list [.atom "meta", rg, gl, f, l, .list is, _] => do
+      pure { idxs := (← is.mapM Sexp.asInt?), first := (← f.asInt?), last := (← l.asInt?),
+             isRange := (← rg.asBool?), isGlobal := (← gl.asBool?) }
   | _ => none
 
-def parseUniv : Sexp → Option (List (Int × Int))
+/-- `rule.GetType()` (7th element of meta; lines in the legacy form have none) and the column type -/
+def parseCx (mt colType : Sexp) : LitCx :=
+  let fam := match mt with
+    | .list [.atom "meta", _, _, _, _, _, .atom tp] => RouteLit.Fam.ofType tp
+    | _ => .other
+  let ct : RouteLit.ColType :=
+    match colType.asNat? with
+    | some 3 => .str
+    | some 2 => .int
+    | _ => if fam == .date then .datetime else .int
+  { fam := fam, ct := ct }
+
+/-- the value a row holds, in the domain of the column type -/
+def parseRowVal (cx : LitCx) : Sexp → Option Int
+  | .list [.atom "s", b] => do
+    let s ← Drv.ShardIO.asGoStr? b
+    match cx.ct with
+    | .datetime => (CalendarSpec.parseSpelling s).map RouteLit.packDT
+    | _ => pure (RouteLit.encodeStr s : Nat)
+  | e => e.asInt?
+
+def parseUnivCx (cx : LitCx) : Sexp → Option (List (Int × Int))
   | .list (.atom "univ" :: us) => us.mapM fun u =>
       match u with
-      | .list [a, b] => do pure ((← a.asInt?), (← b.asInt?))
+      | .list [a, b] => do pure ((← parseRowVal cx a), (← b.asInt?))
       | _ => none
   | _ => none
+
+def parseUniv : Sexp → Option (List (Int × Int)) := parseUnivCx {}
 
 /-- can the condition be TRUE on a row with sharding value `x`, for some truth
     values of the predicates that do not depend on `x` alone? (No negation
@@ -91,7 +165,7 @@ def fmtOut : Option (List Int) → String
   | none => "err"
   | some is => "(ok" ++ String.join (is.map fun i => " " ++ toString i) ++ ")"
 
-def oracle (r : Rule) (c : Cond) (univ0 : List (Int × Int)) (out : Sexp) : String :=
+def oracleWith (r : Rule) (c : Cond) (alt : Option Cond) (univ0 : List (Int × Int)) (out : Sexp) : String :=
   -- rows only live in listed sub tables (`RowOK.inIdxs`)
   let univ := univ0.filter fun (_, p) => r.idxs.contains p
   match out with
@@ -102,10 +176,23 @@ def oracle (r : Rule) (c : Cond) (univ0 : List (Int × Int)) (out : Sexp) : Stri
     | some routed =>
       match univ.find? (fun (x, p) => mayTrue x c && !routed.contains p) with
       | none => "ok"
-      | some _ => "viol unsound-route"
+      | some _ =>
+        match alt with
+        | some c' =>
+          if (univ.find? (fun (x, p) => mayTrue x c' && !routed.contains p)).isNone then
+            "viol mycat-numeric-string-routed-as-text"
+          else "viol unsound-route"
+        | none => "viol unsound-route"
   | .atom "panic" => "viol planner-panic"
   | .list [.atom "not-a-shard-plan"] => "viol sharded-statement-not-planned-as-sharded"
   | _ => "viol unexpected-output"
+
+def oracle (r : Rule) (c : Cond) (univ0 : List (Int × Int)) (out : Sexp) : String :=
+  oracleWith r c none univ0 out
+
+/-- the condition under the reading of the known finding, where it applies -/
+def altCond (cx : LitCx) (cond : Sexp) : Option Cond :=
+  if cx.fam == .text && cx.ct == .int then parseCondCx { cx with textAsString := true } cond else none
 
 /-! ### joined tables -/
 
@@ -117,23 +204,27 @@ def parseJCol : Sexp → Option JCol
   | .list [.atom "ou"] => some .free
   | _ => none
 
-partial def parseJCond : Sexp → Option JCond
-  | .list [.atom "and", a, b] => do pure (.and (← parseJCond a) (← parseJCond b))
-  | .list [.atom "or", a, b] => do pure (.or (← parseJCond a) (← parseJCond b))
-  | .list [.atom "par", a] => do pure (.paren (← parseJCond a))
+partial def parseJCondCx (cx : LitCx) : Sexp → Option JCond
+  | .list [.atom "and", a, b] => do pure (.and (← parseJCondCx cx a) (← parseJCondCx cx b))
+  | .list [.atom "or", a, b] => do pure (.or (← parseJCondCx cx a) (← parseJCondCx cx b))
+  | .list [.atom "par", a] => do pure (.paren (← parseJCondCx cx a))
   | .list [.atom "other", k, _, _] => do pure (.other (← k.asNat?))
   | .list [.atom "eqcol", _, _] => some (.other 1000)
   | .list [.atom "cmp", c, .atom side, .atom op, l] => do
-      pure (.cmp (← parseJCol c) (side == "lc") (← parseOp op) (← parseLit l))
+      pure (.cmp (← parseJCol c) (side == "lc") (← parseOp op) (← parseLitCx cx l))
   | .list [.atom "in", c, neg, .list ls] => do
-      pure (.inList (← parseJCol c) (← neg.asBool?) (← ls.mapM parseLit))
+      pure (.inList (← parseJCol c) (← neg.asBool?) (← ls.mapM (parseLitCx cx)))
   | .list [.atom "btw", c, neg, lo, hi] => do
-      pure (.between (← parseJCol c) (← neg.asBool?) (← parseLit lo) (← parseLit hi))
+      pure (.between (← parseJCol c) (← neg.asBool?) (← parseLitCx cx lo) (← parseLitCx cx hi))
   | _ => none
 
-def parseOptJCond : Sexp → Option (Option JCond)
+def parseOptJCondCx (cx : LitCx) : Sexp → Option (Option JCond)
   | .atom "-" => some none
-  | e => (parseJCond e).map some
+  | e => (parseJCondCx cx e).map some
+
+def parseJCond : Sexp → Option JCond := parseJCondCx {}
+
+def parseOptJCond : Sexp → Option (Option JCond) := parseOptJCondCx {}
 
 def parseTp : String → Option JoinTp
   | "join" | "inner" | "cross" | "straight" | "comma" => some .inner
@@ -141,15 +232,17 @@ def parseTp : String → Option JoinTp
   | "right" | "rightouter" => some .right
   | _ => none
 
-def parseStep : Sexp → Option JoinStep
+def parseStepCx (cx : LitCx) : Sexp → Option JoinStep
   | .list [.atom kw, .atom us, on] => do
-      pure { tp := (← parseTp kw), usingQualified := us == "usingq", on := (← parseOptJCond on) }
+      pure { tp := (← parseTp kw), usingQualified := us == "usingq", on := (← parseOptJCondCx cx on) }
   | _ => none
 
 /-- the join nodes outermost first, as `routeJoins` and `inJoin` take them -/
-def parseSteps : Sexp → Option (List JoinStep)
-  | .list (.atom "steps" :: ss) => (ss.mapM parseStep).map List.reverse
+def parseStepsCx (cx : LitCx) : Sexp → Option (List JoinStep)
+  | .list (.atom "steps" :: ss) => (ss.mapM (parseStepCx cx)).map List.reverse
   | _ => none
+
+def parseSteps : Sexp → Option (List JoinStep) := parseStepsCx {}
 
 def mayTrueJ (vals : Nat → Option Int) (c : JCond) : Bool :=
   evalJ (fun _ => some true) vals c == some true
@@ -285,8 +378,9 @@ def oracleStart (cfg : Sexp) (kis : List Sexp) (out : Sexp) : String :=
 
 def handle (args : List Sexp) : String :=
   match args with
-  | [.atom mode, .list [.atom "join", _, _, _, steps, wh, mt, univ]] =>
-    match parseRule mt, parseSteps steps, parseOptJCond wh, parseUniv univ with
+  | [.atom mode, .list [.atom "join", _, colType, _, steps, wh, mt, univ]] =>
+    let cx := parseCx mt colType
+    match parseRule mt, parseStepsCx cx steps, parseOptJCondCx cx wh, parseUnivCx cx univ with
     | some r, some js, some w, some u =>
       if mode == "m" then
         let out := fmtOut (routeJoinStmt r js w)
@@ -295,8 +389,9 @@ def handle (args : List Sexp) : String :=
         | _ => out
       else "bad-request"
     | _, _, _, _ => "bad-input"
-  | [.atom "s", .list [.atom "join", _, _, _, steps, wh, mt, univ], out] =>
-    match parseRule mt, parseSteps steps, parseOptJCond wh, parseUniv univ with
+  | [.atom "s", .list [.atom "join", _, colType, _, steps, wh, mt, univ], out] =>
+    let cx := parseCx mt colType
+    match parseRule mt, parseStepsCx cx steps, parseOptJCondCx cx wh, parseUnivCx cx univ with
     | some r, some js, some w, some u => oracleJoin r js w u out
     | _, _, _, _ => "bad-input"
   | [.atom "m", .list [.atom "eqstart", cfg, .list kis]] =>
@@ -305,19 +400,21 @@ def handle (args : List Sexp) : String :=
     | some [o] => out ++ " | " ++ oracleStart cfg kis o
     | _ => out
   | [.atom "s", .list [.atom "eqstart", cfg, .list kis], out] => oracleStart cfg kis out
-  | [.atom mode, .list [.atom "route", _, _, _, _, mt, cond, univ]] =>
-    match parseRule mt, parseCond cond, parseUniv univ with
+  | [.atom mode, .list [.atom "route", _, colType, _, _, mt, cond, univ]] =>
+    let cx := parseCx mt colType
+    match parseRule mt, parseCondCx cx cond, parseUnivCx cx univ with
     | some r, some c, some u =>
       if mode == "m" then
         let out := fmtOut (routeStmt r (some c))
         match Sexp.parseLine out with
-        | some [o] => out ++ " | " ++ oracle r c u o
+        | some [o] => out ++ " | " ++ oracleWith r c (altCond cx cond) u o
         | _ => out
       else "bad-request"
     | _, _, _ => "bad-input"
-  | [.atom "s", .list [.atom "route", _, _, _, _, mt, cond, univ], out] =>
-    match parseRule mt, parseCond cond, parseUniv univ with
-    | some r, some c, some u => oracle r c u out
+  | [.atom "s", .list [.atom "route", _, colType, _, _, mt, cond, univ], out] =>
+    let cx := parseCx mt colType
+    match parseRule mt, parseCondCx cx cond, parseUnivCx cx univ with
+    | some r, some c, some u => oracleWith r c (altCond cx cond) u out
     | _, _, _ => "bad-input"
   | _ => "bad-request"
 
